@@ -329,6 +329,29 @@ func instrDominates(a, b ssa.Instruction) bool {
 	return a.Block().Dominates(b.Block())
 }
 
+var passCache = map[ssa.Instruction]*Walk{}
+
+// mustPass: every feasible path from the function entry to b executes a first. Dominance
+// decides most cases; otherwise the function is explored with the paths cut at a (what a earlier
+// test on the way learnt about a value - an error that is already non-nil - decides later tests
+// of it), and b must not be reached.
+func mustPass(a, b ssa.Instruction) bool {
+	if a.Parent() != b.Parent() {
+		return false
+	}
+	if instrDominates(a, b) {
+		return true
+	}
+	w, ok := passCache[a]
+	if !ok {
+		w = &Walk{Fn: a.Parent()}
+		w.Visit = func(in ssa.Instruction, _ Env) bool { return in != a }
+		w.FromEntry()
+		passCache[a] = w
+	}
+	return !w.overflow && !w.Reached[b]
+}
+
 // reachableFrom returns the set of blocks reachable from the given blocks (inclusive).
 func reachableFrom(starts ...*ssa.BasicBlock) map[*ssa.BasicBlock]bool {
 	seen := map[*ssa.BasicBlock]bool{}
